@@ -65,11 +65,6 @@ TriClauses == {"C09.edge_missing", "C09.edge_listed", "C09.cycle_edges"}
 \* points, except the sides of artefact triangles (both ends with 3 mesh edges and 2 cells).  On coarser
 \* generated contours get_artifacts takes ordinary border junctions for artefacts; a failure there that is
 \* not the triangle-removal finding is a rejected input, not a verdict.
-\* the last mesh edge the skeleton parser created stays referenced by a loop variable of create_lattice:
-\* deleting it never runs its destructor; when both its ends are artefact vertices do_t3_transition
-\* then stumbles over the stale id (KeyError)
-PinnedLast(mm) == mm.ne > 0 /\ LET a == mm.E[mm.ne][1]  b == mm.E[mm.ne][2] IN
-                    Deg(mm, a) = 3 /\ NCells(mm, a) = 2 /\ Deg(mm, b) = 3 /\ NCells(mm, b) = 2
 SKPremise(mm) == \A p \in Paths(mm) : Len(p) >= 4 \/ (/\ Deg(mm, p[1]) = 3 /\ NCells(mm, p[1]) = 2
                                                      /\ Deg(mm, p[Len(p)]) = 3 /\ NCells(mm, p[Len(p)]) = 2)
 
@@ -81,20 +76,20 @@ DoStep(e) ==
          joins  == (e.op = "G" /\ e.rse /\ e.ne >= 2) \/ e.op = "J"
          chainK == ~ok /\ joins /\ prevOK /\ HasChain(m)
          \* the premise of a step is a Consistent mesh: an inconsistency is reported once, where it appears
-         rej    == ~prevOK \/ (~ok /\ e.op = "G" /\ LoopNe1(m, e.ne))
+         \* (a mesh with a cell of fewer than two vertices cannot be written as a Surface Evolver dump: the
+         \*  harness reports that as the pseudo exception CannotSerialize - no input for the parser, no verdict)
+         rej    == ~prevOK \/ (~ok /\ e.op = "G" /\ LoopNe1(m, e.ne)) \/ e.raised = "CannotSerialize"
          bad    == IF rej \/ ~ok THEN {} ELSE Consistent(e.mesh)
          lensK  == ok /\ ~rej /\ joins /\ (bad \cap LensClauses) # {} /\ HasLens(m)
          triR   == ~ok /\ ~rej /\ e.op \in {"TRI", "SK"} /\ e.raised = "IndexError" /\ HasTwin(m)
          triL   == ok /\ ~rej /\ e.op \in {"TRI", "SK"} /\ (bad \cap TriClauses) # {} /\ HasTwin(m)
          bad0   == IF ~ok THEN {"C09.raised"} ELSE bad
-         pinK   == ~ok /\ ~rej /\ e.op = "SK" /\ e.raised = "KeyError" /\ ~triR /\ PinnedLast(m)
-         skRej  == e.op = "SK" /\ ~rej /\ ~triR /\ ~triL /\ ~pinK /\ bad0 # {} /\ ~SKPremise(m)
-         fails  == IF rej \/ chainK \/ triR \/ pinK \/ skRej THEN {} ELSE IF ~ok THEN {"C09.raised"}
+         skRej  == e.op = "SK" /\ ~rej /\ ~triR /\ ~triL /\ bad0 # {} /\ ~SKPremise(m)
+         fails  == IF rej \/ chainK \/ triR \/ skRej THEN {} ELSE IF ~ok THEN {"C09.raised"}
                    ELSE IF lensK THEN bad \ LensClauses ELSE IF triL THEN bad \ TriClauses ELSE bad
          kf     == (IF chainK THEN {"KF_ContractionChain:C09.raised"} ELSE {}) \cup
                    (IF lensK THEN {"KF_LensContraction:" \o c : c \in bad \cap LensClauses} ELSE {}) \cup
                    (IF triR THEN {"KF_TriangleRemoval:C09.raised"} ELSE {}) \cup
-                   (IF pinK THEN {"KF_PinnedLastEdge:C09.raised"} ELSE {}) \cup
                    (IF triL THEN {"KF_TriangleRemoval:" \o c : c \in bad \cap TriClauses} ELSE {})
          hits   == {"C09.consistent", "C09.after_" \o e.op}
      IN  EmitV(e, fails, kf, hits, {}, rej \/ skRej)
